@@ -2,7 +2,14 @@
 
 package raft
 
-import "time"
+import (
+	"bytes"
+	"fmt"
+	"io"
+	"time"
+
+	"github.com/hashicorp/raft"
+)
 
 // Read-only accessors for the cluster check (C07); added to package internal/raft by the check-time overlay only.
 
@@ -55,4 +62,47 @@ func (r *Raft) VerifSnapshotTo(dst *Raft) error {
 	}
 	defer rc.Close()
 	return dst.raft.Restore(meta, rc, 10*time.Second)
+}
+
+// ---- FSM snapshot protocol, driven the way raft drives it (Snapshot on the FSM goroutine, Persist later) ----
+
+func (r *Raft) verifFSM() raft.FSM {
+	return NewFSM(FSMOpts{
+		Config:                r.options.Config,
+		GetState:              r.options.GetState,
+		GetCommand:            r.options.GetCommand,
+		SetValues:             r.options.SetValues,
+		SetExpiry:             r.options.SetExpiry,
+		DeleteKey:             r.options.DeleteKey,
+		StartSnapshot:         r.options.StartSnapshot,
+		FinishSnapshot:        r.options.FinishSnapshot,
+		SetLatestSnapshotTime: r.options.SetLatestSnapshotTime,
+		GetHandlerFuncParams:  r.options.GetHandlerFuncParams,
+	})
+}
+
+// VerifFSMSnapshot calls FSM.Snapshot (raft calls it between two Apply calls; the state it denotes is the state now).
+func (r *Raft) VerifFSMSnapshot() (raft.FSMSnapshot, error) { return r.verifFSM().Snapshot() }
+
+type verifSink struct {
+	id  string
+	buf bytes.Buffer
+}
+
+func (s *verifSink) Write(p []byte) (int, error) { return s.buf.Write(p) }
+func (s *verifSink) Close() error                { return nil }
+func (s *verifSink) ID() string                  { return s.id }
+func (s *verifSink) Cancel() error               { return nil }
+
+// VerifPersist calls Persist + Release on a snapshot object (raft does this later, on another goroutine) and returns the bytes.
+func VerifPersist(s raft.FSMSnapshot, msec int64) ([]byte, error) {
+	sink := &verifSink{id: fmt.Sprintf("2-10-%d", msec)}
+	err := s.Persist(sink)
+	s.Release()
+	return sink.buf.Bytes(), err
+}
+
+// VerifFSMRestore feeds snapshot bytes to FSM.Restore of this node.
+func (r *Raft) VerifFSMRestore(data []byte) error {
+	return r.verifFSM().Restore(io.NopCloser(bytes.NewReader(data)))
 }
